@@ -99,7 +99,7 @@ func runC15(tier string) int {
 		flagsets = append(flagsets, []string{"-fmt", "goimports"}, []string{"-fmt", "noop", "-skip-ensure"})
 		ifsets = append(ifsets, []string{"G", "E", "B"})
 	}
-	ifsets = append(ifsets, []string{"A", "W"}, []string{"A", "CC"})
+	ifsets = append(ifsets, []string{"A", "W"}, []string{"A", "CC"}, []string{"M1", "M2"}, []string{"M2", "A", "M1"})
 	for _, f := range files {
 		for _, is := range ifsets {
 			for _, fl := range flagsets {
